@@ -87,13 +87,20 @@ def h_rolling(ctx):
     if cfg.get("shape"):
         gkw["shape"] = tuple(cfg["shape"])
     else:
-        sp = ctx.real("spacing")
-        ctx.assume(sp > 0)
-        gkw["spacing"] = sp
+        if cfg.get("spacing2"):
+            # per-direction spacing (s_north, s_east)
+            sp_n, sp_e = ctx.real("spacing_n"), ctx.real("spacing_e")
+            ctx.assume(sp_n > 0)
+            ctx.assume(sp_e > 0)
+            gkw["spacing"] = (sp_n, sp_e)
+        else:
+            sp_n = sp_e = sp = ctx.real("spacing")
+            ctx.assume(sp > 0)
+            gkw["spacing"] = sp
         gkw["adjust"] = cfg.get("adjust", "spacing")
         # bound the number of windows per axis
-        ctx.assume((region[1] - region[0]) - size <= sp * Fraction(cfg["maxq"]))
-        ctx.assume((region[3] - region[2]) - size <= sp * Fraction(cfg["maxq"]))
+        ctx.assume((region[1] - region[0]) - size <= sp_e * Fraction(cfg["maxq"]))
+        ctx.assume((region[3] - region[2]) - size <= sp_n * Fraction(cfg["maxq"]))
     minwidth = region[1] - region[0]
     mw2 = region[3] - region[2]
     try:
@@ -112,6 +119,14 @@ def h_rolling(ctx):
         return
     for a, b in zip(list(centers[0].ravel()) + list(centers[1].ravel()), list(ref[0].ravel()) + list(ref[1].ravel())):
         ctx.claim("window centre equals the grid_coordinates node", eq(a, b))
+    if cfg.get("shape"):
+        # the same, spelt out: shape = (windows along northing, windows along easting), evenly spread over the shrunk region
+        wn, we_ = tuple(cfg["shape"])
+        ctx.claim("a shape gives that many windows along (northing, easting)", centers[0].shape == (wn, we_))
+        if centers[0].shape == (wn, we_):
+            for i in range(wn):
+                for j in range(we_):
+                    ctx.claim("centre (i, j) sits at the j-th of the easting steps and the i-th of the northing steps of the shrunk region", And(eq(centers[0][i, j] * max(we_ - 1, 1), shrunk[0] * max(we_ - 1, 1) + j * (shrunk[1] - shrunk[0])), eq(centers[1][i, j] * max(wn - 1, 1), shrunk[2] * max(wn - 1, 1) + i * (shrunk[3] - shrunk[2]))))
     if not (cfg.get("adjust") == "region"):
         for widx in np.ndindex(*centers[0].shape):
             ce, cn = centers[0][widx], centers[1][widx]
@@ -145,7 +160,11 @@ def h_expanding(ctx):
     sizes = [ctx.real("size%d" % k) for k in range(nsz)]
     for sz in sizes:
         ctx.assume(sz > 0)
-    out = vc.expanding_window((e, n, x), (ce, cn), sizes)
+    if cfg.get("center3"):
+        # the centre may carry further coordinates (easting, northing, vertical, ...): only the first two are used
+        out = vc.expanding_window((e, n, x), (ce, cn, ctx.real("cz")), sizes)
+    else:
+        out = vc.expanding_window((e, n, x), (ce, cn), sizes)
     ctx.claim("one index set per size, in the order given", isinstance(out, list) and len(out) == nsz)
     if len(out) != nsz:
         return
@@ -189,6 +208,9 @@ def _cfg_rolling(tier, seed):
         {"pshape": (1,), "region": "given", "shape": (1, 2)},
         {"pshape": (2, 2), "region": "given", "shape": (1, 1), "mem": "F"},
         {"pshape": (1,), "region": "given", "shape": (1, 2), "int_coords": True},
+        {"pshape": (1, 2), "region": "given", "shape": (2, 1)},
+        {"pshape": (1,), "region": "given", "maxq": "1", "adjust": "spacing", "spacing2": True},
+        {"pshape": (2,), "region": "inferred", "maxq": "1", "adjust": "spacing"},
     ]
     if tier == "quick":
         return q
@@ -198,7 +220,7 @@ def _cfg_rolling(tier, seed):
         {"pshape": (2,), "region": "given", "shape": (2, 2)},
         {"pshape": (1,), "region": "given", "shape": (3, 3)},
         {"pshape": (1,), "region": "given", "shape": (2, 3)},
-        {"pshape": (1, 2), "region": "given", "shape": (2, 1)},
+        {"pshape": (1,), "region": "given", "maxq": "1", "adjust": "region", "spacing2": True},
         {"pshape": (2, 2), "region": "inferred", "shape": (1, 1)},
         {"pshape": (1,), "region": "given", "maxq": "5/2", "adjust": "spacing"},
         {"pshape": (2,), "region": "given", "maxq": "1", "adjust": "spacing"},
@@ -219,8 +241,8 @@ HARNESSES = [
     Harness(
         "expanding_window",
         h_expanding,
-        lambda tier, seed: [{"pshape": (2,), "nsizes": 2}, {"pshape": (1, 2), "nsizes": 1}, {"pshape": (2, 2), "nsizes": 1, "mem": "T"}, {"pshape": (2,), "nsizes": 1, "int_coords": True}] + ([{"pshape": (2, 2), "nsizes": 2}, {"pshape": (2,), "nsizes": 3}] if tier == "thorough" else []),
-        bounds="2-4 symbolic points (1-D and 2-D arrays, extra coordinate), symbolic centre, 1-3 symbolic sizes in any order",
+        lambda tier, seed: [{"pshape": (2,), "nsizes": 2}, {"pshape": (1, 2), "nsizes": 1}, {"pshape": (2, 2), "nsizes": 1, "mem": "T"}, {"pshape": (2,), "nsizes": 1, "int_coords": True}, {"pshape": (2,), "nsizes": 2, "center3": True}] + ([{"pshape": (2, 2), "nsizes": 2}, {"pshape": (2,), "nsizes": 3}] if tier == "thorough" else []),
+        bounds="2-4 symbolic points (1-D and 2-D arrays, extra coordinate), symbolic centre (two components, or three with a vertical one), 1-3 symbolic sizes in any order",
         stubs=["scipy.spatial.cKDTree -> StubKDTree (ball-query contract)"],
         extra_globals=_globals,
         timeout_s=900,
